@@ -547,6 +547,7 @@ struct vsim_session {
       o << "SCRIPT err=" << (err == COLVARS_OK ? "ok" : "error") << " result=" << res << "\n";
       cvm::clear_error();
     }
+    else if (cmd == "unbuffered") { o << std::unitbuf; }   // every line reaches the pipe at once (C11: processes that get killed)
     else if (cmd == "echo") { o << line << "\n"; }
     else if (cmd == "quit") { return false; }
     else if (!exec_extra(cmd, a, is)) {
